@@ -193,14 +193,29 @@ func c15(args []string) int {
 				if v == "" || pv.Major != 1 || pv.Minor < 13 {
 					continue // the property quantifies over target versions from 1.13 to the newest
 				}
-				srcAll := ""
+				// "quoted from the analysed file" = occurs in the flagged region: the lines of the flagged file from
+				// the diagnostic's line on (12 lines cover every multi-statement pattern of the shipped rules). The
+				// examples' /*! expected warning */ comments are not analysed code.
+				fileLines := map[string][]string{}
 				for _, f := range p.Files {
-					// the examples' /*! expected warning */ comments are not analysed code: a recommendation must
-					// not count as "quoted from the file" just because the expectation spells it out
-					srcAll += expectationRE.ReplaceAllString(f.Src, "") + "\n"
+					fileLines[f.Name] = strings.Split(expectationRE.ReplaceAllString(f.Src, ""), "\n")
+				}
+				region := func(x harness.Diag) string {
+					ls := fileLines[x.File]
+					lo, hi := x.Line-1, x.Line+12
+					if lo < 0 {
+						lo = 0
+					}
+					if hi > len(ls) {
+						hi = len(ls)
+					}
+					if lo > hi {
+						return ""
+					}
+					return strings.Join(ls[lo:hi], "\n")
 				}
 				for _, x := range d {
-					for _, rec := range recommendations(api, x, srcAll) {
+					for _, rec := range recommendations(api, x, region(x)) {
 						mu.Lock()
 						recCount++
 						mu.Unlock()
